@@ -119,6 +119,21 @@ class Evaluator(object):
             return [self.val(c) for c in e.clauses]
         if isinstance(e, el.Cast):
             return self.val(e.clause)
+        from sqlalchemy.sql import functions as fn
+        if isinstance(e, fn.FunctionElement):
+            name = (getattr(e, 'name', '') or '').lower()
+            args = [self.val(c) for c in e.clauses]
+            if name == 'coalesce':
+                for a in args:
+                    if a is not None:
+                        return a
+                return None
+            if name in ('lower', 'upper') and len(args) == 1 and \
+                    isinstance(args[0], (str, type(None))):
+                return None if args[0] is None else getattr(
+                    args[0], name)()
+            raise symx.ProxyMisuse('sqlir: unsupported SQL function %s'
+                                   % name)
         if hasattr(e, 'expression') and e.expression is not e:
             return self.val(e.expression)
         raise symx.ProxyMisuse('sqlir: unsupported value node %s: %s'
@@ -395,6 +410,10 @@ class Session(object):
         self.pending = []             # added, not yet flushed
         self.overlay = {}             # (model, pk) -> record | None
         self.locks = set()            # (model, pk)
+        self.ulocks = []              # (model, cols, values) of own inserts:
+        #                               the unique-index entries stay locked
+        #                               until the transaction ends, even if
+        #                               the row is deleted again (named locks)
         self.open = True
         self.explicit = False         # demarcated by start_tx()
         self.bind = Session._Bind()
@@ -454,6 +473,23 @@ class Session(object):
         self._hand_off('execute')
         self.flush()
         n = 0
+        if isinstance(stmt, dml.Insert):
+            rec = {k: None for k in columns_of(model)}
+            for c, v in stmt._values.items():
+                rec[c if isinstance(c, str) else c.key] = \
+                    Evaluator({}).val(v)
+            apply_defaults(self.db, model, rec)
+            self._check_unique(model, rec)
+            key = (model, rec['id'])
+            self._lock(key)
+            self.overlay[key] = rec
+            self.db.log.append((self.name, 'execute',
+                                'Insert %s' % model.__name__))
+
+            class RI(object):
+                rowcount = 1
+                inserted_primary_key = (rec['id'],)
+            return RI()
         recs = [r for r in self.visible(model) if admits(stmt.whereclause, r)]
         for r in recs:
             key = (model, r['id'])
@@ -541,12 +577,14 @@ class Session(object):
                 t[pk] = rec
         self.overlay = {}
         self.locks.clear()
+        self.ulocks = []
         db.log.append((self.name, 'commit', ''))
 
     def rollback(self):
         self.overlay = {}
         self.pending = []
         self.locks.clear()
+        self.ulocks = []
         # instances keep their python state (as SQLAlchemy's would be
         # expired); forget them
         self.identity.clear()
@@ -556,6 +594,7 @@ class Session(object):
         self.overlay = {}
         self.pending = []
         self.locks.clear()
+        self.ulocks = []
         self.open = False
         for inst in self.identity.values():
             m = _meta(inst)
@@ -709,22 +748,22 @@ class Session(object):
                 for s in self.db.sessions:
                     if s is self:
                         continue
-                    for (mdl, pk), other in s.overlay.items():
-                        if mdl is model and other is not None and \
-                                pk not in self.db.table(model) and \
-                                _same_key(cols, mine, other):
-                            holder = (s, (mdl, pk))
+                    for ul in s.ulocks:
+                        if ul[0] is model and ul[1] == cols and bool(sym_and(
+                                *[_eq(a, b) for a, b in zip(mine, ul[2])])):
+                            holder = (s, ul)
                 if holder is None:
                     break
                 if self.db.on_block is None:
                     raise WouldBlock(holder[0])
-                self.db.on_block(self, holder[0], holder[1])
+                self.db.on_block(self, holder[0], ('ulock', holder[1]))
             for other in self.visible(model):
                 if other.get('id') == rec.get('id') and cols != ('id',):
                     continue
                 if _same_key(cols, mine, other):
                     raise db_exc.DBDuplicateEntry(columns=list(cols),
                                                   value=str(mine))
+            self.ulocks.append((model, cols, mine))
 
     def delete_record(self, model, pk):
         key = (model, pk)
